@@ -1052,6 +1052,16 @@ func runC09(res *Result, rng *RNG, tier string, outDir string) {
 				cur = ni
 			}
 		}
+		// the token that gets sealed was, four times out of ten, itself loaded from bytes (a holder receives a token,
+		// seals it and passes it on): sealing must not depend on where the token object came from
+		if r.Chance(40) {
+			if ri, err := f.reload(cur); err == nil {
+				cur = ri
+				res.Dist("sealed-from:reloaded")
+			}
+		} else {
+			res.Dist("sealed-from:built-or-appended")
+		}
 		si, err := f.seal(r, cur)
 		u, s := f.toks[cur], (*famToken)(nil)
 		rep0 := map[string]interface{}{"unsealed": fmt.Sprintf("%x", u.Bytes)}
